@@ -7,3 +7,24 @@ for pid, sp in PROPS.items():
     LEVELS[pid] = {'category': 'other', 'text': 'Executable Lean 4 model of the code checked bit-for-bit against the real crates on the property stream (correspondence) plus a failing-input '
                    'search of the property statement on the implementation; property theorems for this property are not yet complete, so no proof-level claim is made. ' + sp['explanation'],
                    'note': NOTE, 'technique': 'Lean 4 executable model + differential correspondence + oracle search (theorems pending)'}
+
+def proof(pid, text, technique):
+    LEVELS[pid] = {'category': 'proof', 'text': text, 'note': NOTE, 'technique': technique}
+
+proof('C12', 'Kernel-checked theorems about the Lean model for ALL frames/geometries/lengths: the YUV constructor returns each documented error in the documented precedence '
+      '(yuvNew_decim/width/height/chroma/cover/scan), accepts iff WellFormed (yuvNew_iff; WellFormed = the four clauses of the statement + buffer coverage, which Plane::new frames always satisfy: planeNew_covers), '
+      'keeps the frame verbatim with the resolved config (yuvNew_verbatim); float constructors accept iff len = w*h with true multiplication (fimg_new_iff, rgb_new_iff). '
+      'The PlaneIter sample scan is proved to decide "some visible sample exceeds 2^n-1" (Proofs/Frame.lean). Model tied to the code by the geometry-stream correspondence and an independent contract oracle.',
+      'Lean 4 theorems (case analysis + induction over the scan loops) on a model validated by differential correspondence')
+proof('C14', 'The error/success status of every conversion is proved to be a function of the metadata alone for every image (yuvToRgb_status, rgbToYuv_status, rgbToLinear_status, linearToRgb_status) '
+      'and independent of the build; the contract (symmetry of support, equal errors for the single-stage pairs, the 7/14/11 supported values always succeed, errors name the field at fault, '
+      'standard matrices ignore primaries) is then decided by the Lean kernel over all 15x14x19 enum values (`decide`), without evaluating a float. Exhaustive correspondence of all 3276 triples ties the tables to the code.',
+      'Lean 4 `decide` over the full metadata product + structural lemmas; exhaustive correspondence')
+proof('C15', 'For ALL widths and heights (not a range): the model guess functions, with thresholds regenerated from the source, equal the documented mpv table (guess_is_mpv, by rfl), resolution never leaves Unspecified (fix_specified), '
+      'is idempotent, Yuv::new / Rgb::new / rgb_to_yuv store exactly the resolved config; labels match content: a successful LinearRgb->Yuv conversion applied exactly the transfer/primaries/matrix it stores (linearToYuv_label, the repaired defect D4). '
+      'The numeric "decodes back within the C09 budget" clause is covered by the content oracle and by C09, not by a theorem.',
+      'Lean 4 theorems (rfl / case analysis) on the model; exhaustive correspondence over Unspecified subsets and threshold sizes')
+LEVELS['C20'] = {'category': 'other', 'text': 'Feature wiring is proved: on the manifests regenerated from both Cargo.toml files, default features enable yuvxyb-math/fastmath and --no-default-features does not (C20.no_default_disables_fastmath, '
+      '`decide`), and with fastmath off the helpers are the libm parameter (nofast_is_libm). "Every property holds under each build" is established by running the correspondence (model with matching fastmath/fma flags) and the '
+      'property oracles against four real builds of the harness (default, +fma, --no-default-features, overflow/debug-checked); the 5e-5 accuracy clause without fastmath is checked by the oracle, not proved (libm is a model parameter).',
+      'note': NOTE, 'technique': 'Lean 4 `decide` on translated Cargo manifests + correspondence/oracles under four builds'}
